@@ -27,7 +27,7 @@ BITS = {}
 
 def plan(tier, seed):
     if tier == "quick":
-        return [dict(seed=seed, shard=i, n=170, depth=3) for i in range(16)]
+        return [dict(seed=seed, shard=i, n=500, depth=3) for i in range(16)]
     return [dict(seed=seed, shard=i, n=1800, depth=4) for i in range(64)]
 
 
